@@ -82,13 +82,14 @@ class Builder:
                         o = os.path.join(d, 'lib_' + os.path.basename(src)[:-4] + '.o'); libobjs[fl].append(o)
                         if not os.path.exists(o):
                             jobs.append(([F['cxx']] + F['flags'] + COMMON_INC() + ['-c', src, '-o', '@OUT@'], o))
-            bins = {}; linkjobs = []
+            bins = {}; linkjobs = []; scheduled = set()
             for u in units:
                 fl = u['flavour']; F = FLAVOURS[fl]; d = os.path.join(self.dir, fl); os.makedirs(d, exist_ok=True)
                 srcs = [os.path.join(HARNESS, s) for s in u['src']]
                 key = sha_files(srcs, (self.hh + ' '.join(F['flags'] + u.get('cflags', []) + u.get('libs', []))).encode())[:12]
-                binp = os.path.join(d, '%s-%s' % (u['name'], key)); bins[u['name']] = binp
-                if os.path.exists(binp): continue
+                binp = os.path.join(d, 'u-%s-%s' % (os.path.basename(srcs[0])[:-4], key)); bins[u['name']] = binp      # keyed by content only: units sharing source+flags share the binary
+                if os.path.exists(binp) or binp in scheduled: continue
+                scheduled.add(binp)
                 objs = []
                 for s in srcs:
                     o = binp + '.' + os.path.basename(s)[:-4] + '.o'; objs.append(o)
